@@ -16,7 +16,7 @@ Record fobs := {
   o_frame : bool;      (* Type, CreatedAt and the deep snapshot of the payload are what they were before the call *)
   o_decode : N;        (* Go's own decode of the stored json line vs. the expected image: 0 n/a, 1 equal, 2 different *)
   o_pred_err : bool;   (* the predicate was invoked during the call and returned an error *)
-  o_final : option bytes;  (* Format("json") of the same event re-read later: after every later Process call of the batch (other
+  o_final : option (option bytes);  (* None: unchanged (the harness compared it with its copy); Some x: Format("json") of the same event re-read later: after every later Process call of the batch (other
                               events, same goroutine) and after a closing round of Process calls from this and other goroutines *)
   o_later : N;         (* number of later Process calls (on other events) after which the stored value was first seen changed;
                           0 when it never changed *)
@@ -115,10 +115,11 @@ Definition run_proc (c : pcase) : list kind :=
    else []) ++
   (* observation-only: the stored value is still the same when re-read after later Process calls on other events; if it is
      not, the property's oracle is run again on what is there now *)
-  (if obeqb (tget fmt_json (o_table o)) (o_final o) then []
+  (let final := match o_final o with None => tget fmt_json (o_table o) | Some x => x end in
+   if obeqb (tget fmt_json (o_table o)) final then []
    else KStoredMutated ::
         (if writes && negb (o_err o) then
-           match c_time c, c_payload c, o_final o with
+           match c_time c, c_payload c, final with
            | Some t, Some v, Some b =>
                (if single_line b then [] else [KLine]) ++ (if members_ok b (c_type c) v then [] else [KParse])
            | _, _, _ => []
